@@ -245,14 +245,31 @@ def ensure_interp(extra_defs=(), tag="", cc="gcc", extra_flags=()):
                 pass
             return exe
         os.makedirs(d, exist_ok=True)
-        cs = sorted(f for f in os.listdir(src) if f.endswith(".c"))
-        cs = [os.path.join(src, f) for f in cs]
-        cs += sorted(os.path.join(src, "lpeglabel", f) for f in os.listdir(os.path.join(src, "lpeglabel")) if f.endswith(".c"))
-        cs.append(os.path.join(src, "srpmalloc", "srpmalloc.c"))
-        cmd = [cc] + INTERP_FLAGS + list(extra_defs) + list(extra_flags) + ["-I" + os.path.join(src, "lua")] + cs + \
-              ["-o", exe + ".tmp", "-lm", "-ldl", "-Wl,-E"]
+        # the compile command is the repository's own (make -n: nothing is executed or written in REPO),
+        # so a change of the Makefile's defines/flags reaches the interpreter the checks run
+        cmd = None
+        try:
+            import shlex
+            rcm, mo, me = sh(["make", "-n", "-B", "nelua-lua", "CC=" + cc], cwd=REPO, timeout=120)
+            flat = mo.replace("\\\n", " ")
+            for line in flat.split("\n"):
+                if "-o nelua-lua" in line and "src/" in line:
+                    toks = shlex.split(line)
+                    i = toks.index("-o")
+                    toks[i + 1] = exe + ".tmp"
+                    cmd = toks[:1] + list(extra_defs) + list(extra_flags) + toks[1:]
+                    break
+        except Exception:
+            cmd = None
+        if cmd is None:
+            cs = sorted(f for f in os.listdir(src) if f.endswith(".c"))
+            cs = [os.path.join(src, f) for f in cs]
+            cs += sorted(os.path.join(src, "lpeglabel", f) for f in os.listdir(os.path.join(src, "lpeglabel")) if f.endswith(".c"))
+            cs.append(os.path.join(src, "srpmalloc", "srpmalloc.c"))
+            cmd = [cc] + INTERP_FLAGS + list(extra_defs) + list(extra_flags) + ["-I" + os.path.join(src, "lua")] + cs + \
+                  ["-o", exe + ".tmp", "-lm", "-ldl", "-Wl,-E"]
         t = time.time()
-        rc, out, err = sh(cmd, timeout=900)
+        rc, out, err = sh(cmd, timeout=900, cwd=REPO)
         if rc != 0:
             raise RuntimeError("interpreter build failed:\n" + err[-3000:])
         os.rename(exe + ".tmp", exe)
